@@ -1090,7 +1090,7 @@ Proof. unfold be_min. apply be_bytes_wf. Qed.
 
 Lemma gob_inj a b : gob_bigint a = gob_bigint b -> a = b.
 Proof.
-  unfold gob_bigint. intro H. injection H as Hs Hm. apply be_min_inj in Hm.
+  unfold gob_bigint. intro H. apply cons_eq_inv in H as [Hs Hm]. apply be_min_inj in Hm.
   destruct (Z.ltb_spec a 0), (Z.ltb_spec b 0); try discriminate; lia.
 Qed.
 
@@ -1112,10 +1112,14 @@ Qed.
 Lemma pt_bytes_length x o : length (pt_bytes x o) = 33%nat.
 Proof. unfold pt_bytes. cbn [length]. rewrite be_bytes_length. reflexivity. Qed.
 
+Lemma be_bytes_Z_inj' k K a b : K = 8 * Z.of_nat k -> 0 <= a < 2 ^ K -> 0 <= b < 2 ^ K ->
+  be_bytes k (Z.to_N a) = be_bytes k (Z.to_N b) -> a = b.
+Proof. intros ->. apply be_bytes_Z_inj. Qed.
+
 Lemma pt_bytes_inj x o x' o' : 0 <= x < 2 ^ 256 -> 0 <= x' < 2 ^ 256 -> pt_bytes x o = pt_bytes x' o' -> x = x' /\ o = o'.
 Proof.
-  intros Hx Hx' H. unfold pt_bytes in H. injection H as Ho Hb.
-  apply (be_bytes_Z_inj 32) in Hb; [| exact Hx | exact Hx'].
+  intros Hx Hx' H. unfold pt_bytes in H. apply cons_eq_inv in H as [Ho Hb].
+  apply (be_bytes_Z_inj' 32 256) in Hb; [| reflexivity | exact Hx | exact Hx'].
   split; [exact Hb|]. destruct o, o'; try reflexivity; discriminate.
 Qed.
 
@@ -1125,10 +1129,13 @@ Ltac wf_split H :=
          | (_ && _)%bool = true => let H1 := fresh H in apply andb_true_iff in H as [H H1]
          end.
 
+Lemma item_eq_inv d b d' b' : mkItem d b = mkItem d' b' -> d = d' /\ b = b'.
+Proof. intros [= -> ->]. split; reflexivity. Qed.
+
 Lemma fld_item_inj f g : fld_wf f = true -> fld_wf g = true -> fld_item f = fld_item g -> f = g.
 Proof.
   intros Wf Wg E.
-  destruct f, g; cbn [fld_item] in E; injection E as Ed Eb;
+  destruct f, g; cbn [fld_item] in E; apply item_eq_inv in E as [Ed Eb];
     try (vm_compute in Ed; discriminate Ed); clear Ed; cbn [fld_wf] in Wf, Wg.
   - (* FPed *)
     apply andb_true_iff in Wf as [Wf Wf6]. apply andb_true_iff in Wf as [Wf Wf5]. apply andb_true_iff in Wf as [Wf Wf4].
@@ -1138,14 +1145,16 @@ Proof.
     apply Z.leb_le in Wf1, Wf3, Wf5, Wg1, Wg3, Wg5. apply Z.ltb_lt in Wf2, Wf4, Wf6, Wg2, Wg4, Wg6.
     apply app_eq_length in Eb as [E1 Eb]; [|rewrite !be_bytes_length; reflexivity].
     apply app_eq_length in Eb as [E2 E3]; [|rewrite !be_bytes_length; reflexivity].
-    apply (be_bytes_Z_inj 256) in E1, E2, E3; try (change (8 * Z.of_nat 256) with 2048; lia). subst. reflexivity.
+    apply (be_bytes_Z_inj' 256 2048) in E1; [| reflexivity | lia | lia].
+    apply (be_bytes_Z_inj' 256 2048) in E2; [| reflexivity | lia | lia].
+    apply (be_bytes_Z_inj' 256 2048) in E3; [| reflexivity | lia | lia]. subst. reflexivity.
   - (* FPk *)
     apply andb_true_iff in Wf as [Wf1 _]. apply andb_true_iff in Wg as [Wg1 _]. apply Z.leb_le in Wf1, Wg1.
     apply be_min_inj in Eb. apply to_N_inj in Eb; try assumption. subst. reflexivity.
   - (* FCt *)
     apply andb_true_iff in Wf as [Wf1 Wf2]. apply andb_true_iff in Wg as [Wg1 Wg2].
     apply Z.leb_le in Wf1, Wg1. apply Z.ltb_lt in Wf2, Wg2.
-    apply (be_bytes_Z_inj 512) in Eb; try (change (8 * Z.of_nat 512) with 4096; lia). subst. reflexivity.
+    apply (be_bytes_Z_inj' 512 4096) in Eb; [| reflexivity | lia | lia]. subst. reflexivity.
   - (* FNat *)
     apply andb_true_iff in Wf as [Wf _]. apply andb_true_iff in Wf as [Wf1 Wf2].
     apply andb_true_iff in Wg as [Wg _]. apply andb_true_iff in Wg as [Wg1 Wg2].
@@ -1160,7 +1169,7 @@ Proof.
   - (* FSc *)
     apply andb_true_iff in Wf as [Wf1 Wf2]. apply andb_true_iff in Wg as [Wg1 Wg2].
     apply Z.leb_le in Wf1, Wg1. apply Z.ltb_lt in Wf2, Wg2.
-    apply (be_bytes_Z_inj 32) in Eb; try (change (8 * Z.of_nat 32) with 256; lia). subst. reflexivity.
+    apply (be_bytes_Z_inj' 32 256) in Eb; [| reflexivity | lia | lia]. subst. reflexivity.
   - (* FPt *)
     apply andb_true_iff in Wf as [Wf1 Wf2]. apply andb_true_iff in Wg as [Wg1 Wg2].
     apply Z.leb_le in Wf1, Wg1. apply Z.ltb_lt in Wf2, Wg2.
@@ -1172,4 +1181,286 @@ Proof.
     apply Z.leb_le in Wf1, Wf3, Wg1, Wg3. apply Z.ltb_lt in Wf2, Wf4, Wg2, Wg4.
     apply app_eq_length in Eb as [E1 E2]; [|rewrite !pt_bytes_length; reflexivity].
     apply pt_bytes_inj in E1 as [-> ->]; try lia. apply pt_bytes_inj in E2 as [-> ->]; try lia. reflexivity.
+Qed.
+
+(* ---- the items are well formed for the framing ---- *)
+Lemma Zabs_N_lt z k : Z.abs z < 2 ^ (8 * Z.of_nat k) -> (Z.abs_N z < 2 ^ (8 * N.of_nat k))%N.
+Proof.
+  intro H. apply N2Z.inj_lt. rewrite N2Z.inj_abs_N, N2Z.inj_pow, N2Z.inj_mul, nat_N_Z. exact H.
+Qed.
+Lemma to_N_lt2 a k : 0 <= a -> a < 2 ^ (8 * Z.of_nat k) -> (Z.to_N a < 2 ^ (8 * N.of_nat k))%N.
+Proof.
+  intros Ha H. apply N2Z.inj_lt. rewrite Z2N.id by assumption. rewrite N2Z.inj_pow, N2Z.inj_mul, nat_N_Z. exact H.
+Qed.
+
+Lemma len_lt_64 (l : bytes) : (length l <= 4096)%nat -> (len l <? 2 ^ 64)%N = true.
+Proof.
+  intro H. apply N.ltb_lt. unfold len.
+  apply N.le_lt_trans with (N.of_nat 4096); [lia|]. reflexivity.
+Qed.
+
+Lemma fld_item_wf f : fld_wf f = true -> wf_item (fld_item f) = true.
+Proof.
+  intro W. unfold wf_item.
+  assert (Hdom : wf_bytes (dom (fld_item f)) = true /\ (len (dom (fld_item f)) <? 2 ^ 64)%N = true)
+    by (destruct f; split; vm_compute; reflexivity).
+  destruct Hdom as [Hd1 Hd2]. rewrite Hd1, Hd2. cbn [andb]. rewrite andb_true_r.
+  destruct f; cbn [fld_item dat fld_wf] in *.
+  - rewrite !wf_bytes_app, !be_bytes_wf. cbn [andb]. apply len_lt_64. rewrite !app_length, !be_bytes_length. lia.
+  - apply andb_true_iff in W as [W1 W2]. apply Z.leb_le in W1. apply Z.ltb_lt in W2.
+    rewrite be_min_wf. cbn [andb]. apply len_lt_64. rewrite be_min_length.
+    pose proof (byte_len_bound (Z.to_N n) 512 (to_N_lt2 n 512 W1 W2)). lia.
+  - rewrite be_bytes_wf. cbn [andb]. apply len_lt_64. rewrite be_bytes_length. lia.
+  - apply andb_true_iff in W as [_ W3]. apply Z.ltb_lt in W3.
+    rewrite be_bytes_wf. cbn [andb]. apply N.ltb_lt. unfold len. rewrite be_bytes_length.
+    apply N2Z.inj_lt. rewrite nat_N_Z. change (Z.of_N (2 ^ 64)) with (2 ^ 64).
+    assert (2 ^ 32 < 2 ^ 64) by (apply Z.pow_lt_mono_r; lia). lia.
+  - apply andb_true_iff in W as [W1 W2]. apply Z.leb_le in W1. apply Z.ltb_lt in W2.
+    rewrite be_min_wf. cbn [andb]. apply len_lt_64. rewrite be_min_length.
+    pose proof (byte_len_bound (Z.to_N n) 512 (to_N_lt2 n 512 W1 W2)). lia.
+  - apply Z.ltb_lt in W. unfold gob_bigint.
+    assert (Hw : wf_bytes ((if z <? 0 then 3%N else 2%N) :: be_min (Z.abs_N z)) = true).
+    { cbn [wf_bytes forallb]. fold (wf_bytes (be_min (Z.abs_N z))). rewrite be_min_wf.
+      destruct (z <? 0); reflexivity. }
+    rewrite Hw. cbn [andb]. apply len_lt_64. cbn [length]. rewrite be_min_length.
+    pose proof (byte_len_bound (Z.abs_N z) 512 (Zabs_N_lt z 512 W)). lia.
+  - rewrite be_bytes_wf. cbn [andb]. apply len_lt_64. rewrite be_bytes_length. lia.
+  - assert (Hw : wf_bytes ((if odd then 3%N else 2%N) :: be_bytes 32 (Z.to_N x)) = true).
+    { cbn [wf_bytes forallb]. fold (wf_bytes (be_bytes 32 (Z.to_N x))). rewrite be_bytes_wf. destruct odd; reflexivity. }
+    rewrite Hw. cbn [andb]. apply len_lt_64. cbn [length]. rewrite be_bytes_length. lia.
+  - unfold pt_bytes. rewrite wf_bytes_app.
+    assert (Hw : forall (x : Z) (o : bool), wf_bytes ((if o then 3%N else 2%N) :: be_bytes 32 (Z.to_N x)) = true).
+    { intros x o. cbn [wf_bytes forallb]. fold (wf_bytes (be_bytes 32 (Z.to_N x))). rewrite be_bytes_wf. destruct o; reflexivity. }
+    rewrite !Hw. cbn [andb]. apply len_lt_64. rewrite app_length. cbn [length]. rewrite !be_bytes_length. lia.
+Qed.
+
+Lemma map_fld_item_inj l1 : forall l2, forallb fld_wf l1 = true -> forallb fld_wf l2 = true ->
+  map fld_item l1 = map fld_item l2 -> l1 = l2.
+Proof.
+  induction l1 as [|f l1 IH]; intros [|g l2] W1 W2 E; try discriminate; [reflexivity|].
+  cbn [map forallb] in *. apply andb_true_iff in W1 as [Wf W1]. apply andb_true_iff in W2 as [Wg W2].
+  apply cons_eq_inv in E as [Ef El]. f_equal; [apply fld_item_inj; assumption | apply IH; assumption].
+Qed.
+
+Lemma forallb_wf_items l : forallb fld_wf l = true -> forallb wf_item (map fld_item l) = true.
+Proof.
+  induction l as [|f l IH]; intro W; [reflexivity|]. cbn [map forallb] in *.
+  apply andb_true_iff in W as [Wf W]. rewrite fld_item_wf, IH by assumption. reflexivity.
+Qed.
+
+(* the bytes absorbed by the hash determine every field, whatever was absorbed before *)
+Theorem flds_stream_inj st l1 l2 : forallb fld_wf l1 = true -> forallb fld_wf l2 = true ->
+  fst (write_any st (map fld_hval l1)) = fst (write_any st (map fld_hval l2)) -> l1 = l2.
+Proof.
+  intros W1 W2 E. rewrite !write_any_flds in E. cbn [fst] in E.
+  apply stream_inj in E; try (apply forallb_wf_items; assumption).
+  apply map_fld_item_inj; assumption.
+Qed.
+
+(* and write_any never fails on them *)
+Lemma flds_write_ok st l : snd (write_any st (map fld_hval l)) = true.
+Proof. rewrite write_any_flds. reflexivity. Qed.
+
+(* ---- per system: the challenge input is an injective function of (every public field, every commitment field) ---- *)
+Lemma FNatN_inj n v n' v' : FNatN n v = FNatN n' v' -> v = v'.
+Proof. unfold FNatN. intros [= _ H]. exact H. Qed.
+
+Lemma map_FBig_inj l1 : forall l2, map FBig l1 = map FBig l2 -> l1 = l2.
+Proof.
+  induction l1 as [|a l1 IH]; intros [|b l2] E; try discriminate; [reflexivity|].
+  cbn [map] in E. injection E as -> E. f_equal. apply IH. exact E.
+Qed.
+
+Section ChallengeInj.
+  Context {G : Type}.
+  Variable pt_enc : G -> Z * bool.
+  Hypothesis pt_enc_inj : forall P Q, pt_enc P = pt_enc Q -> P = Q.
+
+  Local Notation FP := (ZK.FP pt_enc).
+  Local Notation FE := (ZK.FE pt_enc).
+
+  Lemma FP_inj P Q : FP P = FP Q -> P = Q.
+  Proof.
+    unfold ZK.FP. intro H. apply pt_enc_inj. destruct (pt_enc P) as [x o], (pt_enc Q) as [x' o'].
+    injection H as -> ->. reflexivity.
+  Qed.
+  Lemma FE_inj L M L' M' : FE L M = FE L' M' -> L = L' /\ M = M'.
+  Proof.
+    unfold ZK.FE. intro H.
+    destruct (pt_enc L) as [a b] eqn:E1, (pt_enc M) as [c d] eqn:E2, (pt_enc L') as [a' b'] eqn:E3, (pt_enc M') as [c' d'] eqn:E4.
+    injection H as -> -> -> ->. split; apply pt_enc_inj; congruence.
+  Qed.
+
+  Ltac inj_tac H :=
+    apply flds_stream_inj in H; [| assumption | assumption];
+    repeat match type of H with
+           | _ :: _ = _ :: _ => let H1 := fresh "Hf" in apply cons_eq_inv in H as [H1 H]
+           end.
+
+  Theorem sch_challenge_inj st gen X C gen' X' C' :
+    forallb fld_wf (sch_fields pt_enc gen X C) = true -> forallb fld_wf (sch_fields pt_enc gen' X' C') = true ->
+    fst (write_any st (sch_challenge_items pt_enc gen X C)) = fst (write_any st (sch_challenge_items pt_enc gen' X' C')) ->
+    gen = gen' /\ X = X' /\ C = C'.
+  Proof.
+    intros W1 W2 H. unfold sch_challenge_items in H. inj_tac H.
+    apply FP_inj in Hf, Hf0, Hf1. subst. repeat split.
+  Qed.
+
+  Theorem log_challenge_inj st H X Y A B C H' X' Y' A' B' C' :
+    forallb fld_wf (log_fields pt_enc H X Y A B C) = true -> forallb fld_wf (log_fields pt_enc H' X' Y' A' B' C') = true ->
+    fst (write_any st (log_challenge_items pt_enc H X Y A B C)) = fst (write_any st (log_challenge_items pt_enc H' X' Y' A' B' C')) ->
+    H = H' /\ X = X' /\ Y = Y' /\ A = A' /\ B = B' /\ C = C'.
+  Proof.
+    intros W1 W2 E. unfold log_challenge_items in E. inj_tac E.
+    apply FP_inj in Hf, Hf0, Hf1, Hf2, Hf3, Hf4. subst. repeat split.
+  Qed.
+
+  Theorem elog_challenge_inj st L M X H Y A Np B L' M' X' H' Y' A' Np' B' :
+    forallb fld_wf (elog_fields pt_enc L M X H Y A Np B) = true -> forallb fld_wf (elog_fields pt_enc L' M' X' H' Y' A' Np' B') = true ->
+    fst (write_any st (elog_challenge_items pt_enc L M X H Y A Np B))
+    = fst (write_any st (elog_challenge_items pt_enc L' M' X' H' Y' A' Np' B')) ->
+    L = L' /\ M = M' /\ X = X' /\ H = H' /\ Y = Y' /\ A = A' /\ Np = Np' /\ B = B'.
+  Proof.
+    intros W1 W2 E. unfold elog_challenge_items in E. inj_tac E.
+    apply FE_inj in Hf as [-> ->]. apply FP_inj in Hf0, Hf1, Hf2, Hf3, Hf4, Hf5. subst. repeat split.
+  Qed.
+
+  Theorem logstar_challenge_inj st nh s t n0 C X Gb S A Y D nh' s' t' n0' C' X' Gb' S' A' Y' D' :
+    forallb fld_wf (logstar_fields pt_enc nh s t n0 C X Gb S A Y D) = true ->
+    forallb fld_wf (logstar_fields pt_enc nh' s' t' n0' C' X' Gb' S' A' Y' D') = true ->
+    fst (write_any st (logstar_challenge_items pt_enc nh s t n0 C X Gb S A Y D))
+    = fst (write_any st (logstar_challenge_items pt_enc nh' s' t' n0' C' X' Gb' S' A' Y' D')) ->
+    (nh, s, t, n0, C, S, A, D) = (nh', s', t', n0', C', S', A', D') /\ X = X' /\ Gb = Gb' /\ Y = Y'.
+  Proof.
+    intros W1 W2 E. unfold logstar_challenge_items in E. inj_tac E.
+    injection Hf as -> -> ->. injection Hf0 as ->. injection Hf1 as ->. apply FP_inj in Hf2, Hf3, Hf6.
+    apply FNatN_inj in Hf4, Hf7. injection Hf5 as ->. subst. repeat split.
+  Qed.
+
+  Theorem affg_challenge_inj st nh s t n1 n0 Kv Dv Fp Xp A Bx By E S F T nh' s' t' n1' n0' Kv' Dv' Fp' Xp' A' Bx' By' E' S' F' T' :
+    forallb fld_wf (affg_fields pt_enc nh s t n1 n0 Kv Dv Fp Xp A Bx By E S F T) = true ->
+    forallb fld_wf (affg_fields pt_enc nh' s' t' n1' n0' Kv' Dv' Fp' Xp' A' Bx' By' E' S' F' T') = true ->
+    fst (write_any st (affg_challenge_items pt_enc nh s t n1 n0 Kv Dv Fp Xp A Bx By E S F T))
+    = fst (write_any st (affg_challenge_items pt_enc nh' s' t' n1' n0' Kv' Dv' Fp' Xp' A' Bx' By' E' S' F' T')) ->
+    (nh, s, t, n1, n0, Kv, Dv, Fp, A, By, E, S, F, T) = (nh', s', t', n1', n0', Kv', Dv', Fp', A', By', E', S', F', T')
+    /\ Xp = Xp' /\ Bx = Bx'.
+  Proof.
+    intros W1 W2 H. unfold affg_challenge_items in H. inj_tac H.
+    injection Hf as -> -> ->. injection Hf0 as ->. injection Hf1 as ->. injection Hf2 as ->. injection Hf3 as ->.
+    injection Hf4 as ->. apply FP_inj in Hf5, Hf7. injection Hf6 as ->. injection Hf8 as ->.
+    apply FNatN_inj in Hf9, Hf10, Hf11, Hf12. subst. repeat split.
+  Qed.
+
+  Theorem mulstar_challenge_inj st nh s t n0 C D X A Bx E S nh' s' t' n0' C' D' X' A' Bx' E' S' :
+    forallb fld_wf (mulstar_fields pt_enc nh s t n0 C D X A Bx E S) = true ->
+    forallb fld_wf (mulstar_fields pt_enc nh' s' t' n0' C' D' X' A' Bx' E' S') = true ->
+    fst (write_any st (mulstar_challenge_items pt_enc nh s t n0 C D X A Bx E S))
+    = fst (write_any st (mulstar_challenge_items pt_enc nh' s' t' n0' C' D' X' A' Bx' E' S')) ->
+    (nh, s, t, n0, C, D, A, E, S) = (nh', s', t', n0', C', D', A', E', S') /\ X = X' /\ Bx = Bx'.
+  Proof.
+    intros W1 W2 H. unfold mulstar_challenge_items in H. inj_tac H.
+    injection Hf as -> -> ->. injection Hf0 as ->. injection Hf1 as ->. injection Hf2 as ->.
+    apply FP_inj in Hf3, Hf5. injection Hf4 as ->. apply FNatN_inj in Hf6, Hf7. subst. repeat split.
+  Qed.
+
+  Theorem encelg_challenge_inj st nh s t n0 C A B X S D Y Zp T nh' s' t' n0' C' A' B' X' S' D' Y' Zp' T' :
+    forallb fld_wf (encelg_fields pt_enc nh s t n0 C A B X S D Y Zp T) = true ->
+    forallb fld_wf (encelg_fields pt_enc nh' s' t' n0' C' A' B' X' S' D' Y' Zp' T') = true ->
+    fst (write_any st (encelg_challenge_items pt_enc nh s t n0 C A B X S D Y Zp T))
+    = fst (write_any st (encelg_challenge_items pt_enc nh' s' t' n0' C' A' B' X' S' D' Y' Zp' T')) ->
+    (nh, s, t, n0, C, S, D, T) = (nh', s', t', n0', C', S', D', T') /\ A = A' /\ B = B' /\ X = X' /\ Y = Y' /\ Zp = Zp'.
+  Proof.
+    intros W1 W2 H. unfold encelg_challenge_items in H. inj_tac H.
+    injection Hf as -> -> ->. injection Hf0 as ->. injection Hf1 as ->.
+    apply FP_inj in Hf2, Hf3, Hf4, Hf7, Hf8. apply FNatN_inj in Hf5, Hf9. injection Hf6 as ->. subst. repeat split.
+  Qed.
+End ChallengeInj.
+
+Ltac inj_tac0 H :=
+  apply flds_stream_inj in H; [| assumption | assumption];
+  repeat match type of H with
+         | _ :: _ = _ :: _ => let H1 := fresh "Hf" in apply cons_eq_inv in H as [H1 H]
+         end.
+
+Theorem nth_challenge_inj st n R A n' R' A' :
+  forallb fld_wf (nth_fields n R A) = true -> forallb fld_wf (nth_fields n' R' A') = true ->
+  fst (write_any st (nth_challenge_items n R A)) = fst (write_any st (nth_challenge_items n' R' A')) ->
+  (n, R, A) = (n', R', A').
+Proof.
+  intros W1 W2 H. unfold nth_challenge_items in H. inj_tac0 H.
+  injection Hf as ->. apply FNatN_inj in Hf0, Hf1. subst. reflexivity.
+Qed.
+
+Theorem enc_challenge_inj st nh s t n0 K S A C nh' s' t' n0' K' S' A' C' :
+  forallb fld_wf (enc_fields nh s t n0 K S A C) = true -> forallb fld_wf (enc_fields nh' s' t' n0' K' S' A' C') = true ->
+  fst (write_any st (enc_challenge_items nh s t n0 K S A C)) = fst (write_any st (enc_challenge_items nh' s' t' n0' K' S' A' C')) ->
+  (nh, s, t, n0, K, S, A, C) = (nh', s', t', n0', K', S', A', C').
+Proof.
+  intros W1 W2 H. unfold enc_challenge_items in H. inj_tac0 H.
+  injection Hf as -> -> ->. injection Hf0 as ->. injection Hf1 as ->. apply FNatN_inj in Hf2, Hf4. injection Hf3 as ->.
+  subst. reflexivity.
+Qed.
+
+Theorem dec_challenge_inj st nh s t n0 C X S T A Gamma nh' s' t' n0' C' X' S' T' A' Gamma' :
+  forallb fld_wf (dec_fields nh s t n0 C X S T A Gamma) = true ->
+  forallb fld_wf (dec_fields nh' s' t' n0' C' X' S' T' A' Gamma') = true ->
+  fst (write_any st (dec_challenge_items nh s t n0 C X S T A Gamma))
+  = fst (write_any st (dec_challenge_items nh' s' t' n0' C' X' S' T' A' Gamma')) ->
+  (nh, s, t, n0, C, X, S, T, A, Gamma) = (nh', s', t', n0', C', X', S', T', A', Gamma').
+Proof.
+  intros W1 W2 H. unfold dec_challenge_items in H. inj_tac0 H.
+  injection Hf as -> -> ->. injection Hf0 as ->. injection Hf1 as ->. injection Hf2 as ->.
+  apply FNatN_inj in Hf3, Hf4. injection Hf5 as ->. injection Hf6 as ->. subst. reflexivity.
+Qed.
+
+Theorem mul_challenge_inj st n X Y C A B n' X' Y' C' A' B' :
+  forallb fld_wf (mul_fields n X Y C A B) = true -> forallb fld_wf (mul_fields n' X' Y' C' A' B') = true ->
+  fst (write_any st (mul_challenge_items n X Y C A B)) = fst (write_any st (mul_challenge_items n' X' Y' C' A' B')) ->
+  (n, X, Y, C, A, B) = (n', X', Y', C', A', B').
+Proof.
+  intros W1 W2 H. unfold mul_challenge_items in H. inj_tac0 H.
+  injection Hf as ->. injection Hf0 as ->. injection Hf1 as ->. injection Hf2 as ->. injection Hf3 as ->. injection Hf4 as ->.
+  reflexivity.
+Qed.
+
+Theorem affp_challenge_inj st nh s t n1 n0 Kv Dv Fp Xp A Bx By E S F T nh' s' t' n1' n0' Kv' Dv' Fp' Xp' A' Bx' By' E' S' F' T' :
+  forallb fld_wf (affp_fields nh s t n1 n0 Kv Dv Fp Xp A Bx By E S F T) = true ->
+  forallb fld_wf (affp_fields nh' s' t' n1' n0' Kv' Dv' Fp' Xp' A' Bx' By' E' S' F' T') = true ->
+  fst (write_any st (affp_challenge_items nh s t n1 n0 Kv Dv Fp Xp A Bx By E S F T))
+  = fst (write_any st (affp_challenge_items nh' s' t' n1' n0' Kv' Dv' Fp' Xp' A' Bx' By' E' S' F' T')) ->
+  (nh, s, t, n1, n0, Kv, Dv, Fp, Xp, A, Bx, By, E, S, F, T) = (nh', s', t', n1', n0', Kv', Dv', Fp', Xp', A', Bx', By', E', S', F', T').
+Proof.
+  intros W1 W2 H. unfold affp_challenge_items in H. inj_tac0 H.
+  injection Hf as -> -> ->. injection Hf0 as ->. injection Hf1 as ->. injection Hf2 as ->. injection Hf3 as ->.
+  injection Hf4 as ->. injection Hf5 as ->. injection Hf6 as ->. injection Hf7 as ->. injection Hf8 as ->.
+  apply FNatN_inj in Hf9, Hf10, Hf11, Hf12. subst. reflexivity.
+Qed.
+
+(* zkfac: P, Q, A, B, T are bound; Proof.Sigma is NOT an input of the challenge (see fac_sigma_malleable) *)
+Theorem fac_challenge_inj st n0 nh s t P Q A B T n0' nh' s' t' P' Q' A' B' T' :
+  forallb fld_wf (fac_fields n0 nh s t P Q A B T) = true -> forallb fld_wf (fac_fields n0' nh' s' t' P' Q' A' B' T') = true ->
+  fst (write_any st (fac_challenge_items n0 nh s t P Q A B T)) = fst (write_any st (fac_challenge_items n0' nh' s' t' P' Q' A' B' T')) ->
+  (n0, nh, s, t, P, Q, A, B, T) = (n0', nh', s', t', P', Q', A', B', T').
+Proof.
+  intros W1 W2 H. unfold fac_challenge_items in H. inj_tac0 H.
+  injection Hf as ->. injection Hf0 as -> -> ->. apply FNatN_inj in Hf1, Hf2, Hf3, Hf4, Hf5. subst. reflexivity.
+Qed.
+
+Theorem prm_challenge_inj st n s t As n' s' t' As' :
+  forallb fld_wf (prm_fields n s t As) = true -> forallb fld_wf (prm_fields n' s' t' As') = true ->
+  fst (write_any st (prm_challenge_items n s t As)) = fst (write_any st (prm_challenge_items n' s' t' As')) ->
+  (n, s, t) = (n', s', t') /\ As = As'.
+Proof.
+  intros W1 W2 H. unfold prm_challenge_items in H. apply flds_stream_inj in H; [| assumption | assumption].
+  unfold prm_fields in H. apply cons_eq_inv in H as [Hf H]. injection Hf as -> -> ->.
+  apply map_FBig_inj in H. subst. split; reflexivity.
+Qed.
+
+Theorem mod_challenge_inj st n w n' w' :
+  forallb fld_wf (mod_fields n w) = true -> forallb fld_wf (mod_fields n' w') = true ->
+  fst (write_any st (mod_challenge_items n w)) = fst (write_any st (mod_challenge_items n' w')) ->
+  (n, w) = (n', w').
+Proof.
+  intros W1 W2 H. unfold mod_challenge_items in H. inj_tac0 H.
+  injection Hf as ->. injection Hf0 as ->. reflexivity.
 Qed.
